@@ -1527,8 +1527,12 @@ func (s *BgpServer) propagateUpdateToNeighbors(rib *table.TableManager, source *
 							for _, p := range toDelete {
 								// if the path is filtered, there is no need to send the withdrawal
 								p := s.filterpath(targetPeer, p, nil)
-								// the path was never advertized to the peer
-								if p == nil || targetPeer.unsetPathSendMaxFiltered(p) {
+								// the path was never advertized to the peer: held back by
+								// send-max, or (a full table transfer ran between the RIB
+								// update and this fan-out) not seen at all. Withdrawing it
+								// would also hand its "freed" slot to a held-back path and
+								// exceed send-max.
+								if p == nil || targetPeer.unsetPathSendMaxFiltered(p) || !targetPeer.hasPathAlreadyBeenSent(p) {
 									continue
 								}
 								toActuallyDelete = append(toActuallyDelete, p)
